@@ -57,6 +57,8 @@ Inductive exn := MachineError | AttributeError | ValueError | KeyError | TypeErr
 (* ------------------------------------------------------------------ model objects *)
 Inductive aval :=
 | VPre (k : nat)        (* a callable the model defined itself; returns k *)
+| VOwn (k : nat)        (* a value the model defined itself that is not callable and not None —
+                           possibly falsy (False, 0, '', [], {}): defined all the same *)
 | VNone                 (* attribute bound to None *)
 | VTrigger              (* partial(machine._get_trigger, model) *)
 | VMayTrigger           (* partial(machine._can_trigger, model) *)
@@ -276,6 +278,7 @@ Definition call_attr (c : cfg) (m : mach) (o : mobj) (n : string) (arg : option 
   match getattr o n with
   | None => (o, RExn AttributeError)
   | Some (VPre k) => (o, RUser k)
+  | Some (VOwn _) => (o, RExn TypeError)
   | Some VNone => (o, RExn TypeError)
   | Some (VState _) => (o, RExn TypeError)
   | Some VTrigger => match arg with Some e => call_trigger c m o e | None => (o, RExn TypeError) end
@@ -361,7 +364,9 @@ Fixpoint starts (p s : string) : bool :=
 Definition user_event (e : string) : bool :=
   negb (starts "is_" e) && negb (starts "to_" e) && negb (starts "may_" e) && negb (String.eqb e "trigger").
 Definition wf_cfg (c : cfg) : bool := user_event (c_attr c).
-Definition pre_val (v : aval) : bool := match v with VPre _ | VNone => true | _ => false end.
+Definition pre_val (v : aval) : bool := match v with VPre _ | VOwn _ | VNone => true | _ => false end.
+(* a value the model defined (anything but None, whatever its truth value) *)
+Definition own_val (v : aval) : bool := match v with VPre _ | VOwn _ => true | _ => false end.
 Definition fresh_obj (c : cfg) (o : mobj) : bool :=
   forallb (fun nv => pre_val (snd nv)) (o_cls o) && forallb (fun nv => pre_val (snd nv)) (o_inst o)
   && match getattr o (c_attr c) with None => true | Some _ => false end.
@@ -419,15 +424,16 @@ Definition is_state_nested (active : list (list string)) (p : list string) (allo
 
 (* the helper under [name] of a model with the given own attributes, as _checked_assignment leaves it:
    0 = the model's own (k), 1 = None, 2 = the machine's helper, 9 = absent *)
-Inductive hkind := KPre (k : nat) | KNone | KHelper | KAbsent.
+Inductive hkind := KPre (k : nat) | KOwn (k : nat) | KNone | KHelper | KAbsent.
 Definition checked_kind (over : bool) (own : option aval) : hkind :=
   match own with
   | Some (VPre k) => if over then KHelper else KPre k
+  | Some (VOwn k) => if over then KHelper else KOwn k
   | Some VNone => if over then KNone else KHelper
   | _ => if over then KAbsent else KHelper
   end.
 Definition own_kind (own : option aval) : hkind :=
-  match own with Some (VPre k) => KPre k | Some VNone => KNone | _ => KAbsent end.
+  match own with Some (VPre k) => KPre k | Some (VOwn k) => KOwn k | Some VNone => KNone | _ => KAbsent end.
 
 Record hcfg := mkH { h_sep : string; h_auto : bool; h_over : bool }.
 
